@@ -49,6 +49,19 @@ for (y1, y2) in pairs:
                     if rng.random() < 0.03:
                         t1, t2 = rng.choice(times), rng.choice(times)
                         cmp(datetime.datetime(y1, m1, d1, *t1), datetime.datetime(y2, m2, d2, *t2))
+# near-equal endpoints: borrow chains decided by the smallest units (both orders)
+for _ in range(payload.get("n_near", 4000)):
+    base = datetime.datetime(rng.choice(years[3:-2]), rng.randrange(1, 13), rng.randrange(1, 29), rng.randrange(24), rng.randrange(60), rng.randrange(60), rng.randrange(10 ** 6))
+    for delta in (1, 400, 999999, 10 ** 6, 59 * 10 ** 6 + 5, 3600 * 10 ** 6 - 1, 86400 * 10 ** 6 - 1, 86400 * 10 ** 6 + 1):
+        other = base + datetime.timedelta(microseconds=delta)
+        cmp(base, other)
+        cmp(other, base)
+    if rng.random() < 0.3:
+        tz = pendulum.timezone(rng.choice(["Europe/Paris", "Asia/Tokyo", "UTC"]))
+        a = base.replace(tzinfo=tz)
+        b = (base + datetime.timedelta(microseconds=rng.choice((1, 400, 999999)))).replace(tzinfo=tz)
+        cmp(a, b)
+        cmp(b, a)
 # zones
 zs = ["Europe/Paris", "America/New_York", "UTC", "Asia/Tokyo", "Australia/Lord_Howe"]
 for _ in range(payload["n_zone"]):
